@@ -16,7 +16,7 @@ func init() {
 		ID:    "C16",
 		Level: "exploration",
 		Rule: "all 64 bit depths x (int64/uint64 values within +-3 of 0, of +-2^k for every k, of 1.5*2^k, of the type bounds, plus seeded random values of random magnitude), every result compared with math/big; " +
-			"clipping checked for identity in range, nearest bound outside, idempotence and order preservation on the sorted value list; Scale for all 11 integer types and all pairs h>=l compared with 2^(h-l) whenever that fits the type; " +
+			"clipping checked for identity in range, nearest bound outside, idempotence and order preservation on the sorted value list; Scale for all 11 integer types and all pairs h>=l compared with 2^(h-l) whenever that fits the type (combinations that do not fit are called too, narrow types first, without asserting their result); " +
 			"distinct = distinct (depth, operation, value) tuples (value lists are de-duplicated); non-trivial = every tuple (each one is a separate library evaluation)",
 		Assume:    []string{"Scale is not asserted when 2^(h-l) does not fit the integer type", "depth 0 is outside the property"},
 		Exhaustiv: "all 64 depths and all (h,l) pairs for all 11 integer types are enumerated; the value axis is boundary-dense + seeded random",
@@ -162,7 +162,10 @@ func runC16(c *core.Ctx) {
 					fits = sh <= sc.T.Bits-2
 				}
 				if !fits {
-					c.Obs("scale_not_representable_skipped", 1)
+					// in the domain (all pairs h>=l, all types), nothing to assert; but
+					// the call must not disturb later calls for other element types
+					core.Guard(func() { sc.Call(b, l) })
+					c.Obs("scale_not_representable_called_unasserted", 1)
 					continue
 				}
 				c.Eval(1)
